@@ -42,9 +42,13 @@ import (
 
 func init() { register("C02", propC02) }
 
+// c02Wait bounds every wait for the real code. A correct operator never comes near it; once several cases have
+// run into it (the implementation is broken and the violation is already certain) later cases wait less.
+var c02Wait = 3 * time.Second
+var c02TimedOutCases = 0
+
 const (
 	c02OpID    = "op1"
-	c02Wait    = 3 * time.Second
 	c02Settle  = 2 * time.Millisecond
 	c02HookPfx = "operator."
 )
@@ -499,8 +503,13 @@ func c02Impl(c lib.Case) []string {
 		}
 	}
 	out := make([]string, 0, len(c.Ops))
+	timedOut := false
 	for _, line := range c.Ops {
 		f := strings.Fields(line)
+		if timedOut {
+			out = append(out, "skipped-after-timeout")
+			continue
+		}
 		if r.gone {
 			// the operator stopped itself; only ops that do not need the consumer still answer
 			switch {
@@ -718,7 +727,19 @@ func c02Impl(c lib.Case) []string {
 				r.inflight[i] = "bar " + strconv.FormatUint(id, 10)
 			}
 		}
+		if strings.Contains(res, "timeout") || strings.Contains(res, "!stuck") {
+			timedOut = true
+		}
 		out = append(out, withSpurious(res))
+	}
+	for _, o := range out {
+		if strings.Contains(o, "timeout") || strings.Contains(o, "!stuck") {
+			c02TimedOutCases++
+			if c02TimedOutCases >= 3 {
+				c02Wait = 300 * time.Millisecond
+			}
+			break
+		}
 	}
 	c02Count(out)
 	return out
